@@ -10,8 +10,12 @@ ENGINES = [
      "kind_free_text": "explicit-state BFS whose transitions are real setter calls on real objects; exact-state dedup; depth bound or fixpoint"},
 ]
 _PENDING = "check not built yet in this round (machinery under construction; see DESIGN.md section 3)"
-NOT_APPLICABLE = {p: _PENDING for p in ["C01", "C02", "C03", "C06", "C10", "C11", "C12", "C13", "C14", "C15", "C16", "C17", "C18"]}
+NOT_APPLICABLE = {p: _PENDING for p in ["C01", "C02", "C03", "C06", "C10", "C11", "C13", "C14", "C15", "C16", "C17", "C18"]}
 META = {
+    "C12": {"engine": "params-enum", "design_ref": "3/C12",
+            "technique": "explicit enumeration of every list state under a length cap and every operation from it (reference-model lockstep on the real object), plus exhaustive init-string, sort and byte round-trip enumerations",
+            "text": "Every reachable list up to the cap is built on the real url_search_params (two independent histories), every operation of the menu is applied, and all observers (size, get, get_all, has, has(k,v), three iterators, indexing, to_string) are compared with the list-of-pairs model; sort is compared with a stable UTF-16 code-unit sort on all short key lists; serialise/parse round trip on arbitrary bytes.",
+            "note": "Model written from the Standard (reflist.hpp); bounded by key/value menus and list length cap."},
     "C09": {"engine": "limit-enum", "design_ref": "3/C09",
             "technique": "bounded exhaustive enumeration of (limit, input, base) triples and (limit, history) pairs on the real code; differential oracle against the unlimited run",
             "text": "For every limit of the sweep and every enumerated input/base/setter history the result under the limit is compared with the unlimited result: bound on href length, mandatory atomic failure when the result would exceed L, identical behaviour when input and result fit.",
